@@ -9,6 +9,10 @@ package apd
 //                               for every bit length 129..700000.
 //   TestVerifBigIntBridge       bounded: BigInt wrappers against math/big on a boundary pool, all
 //                               alias patterns, inline and heap-resident representations.
+//   TestVerifRejComplete        bounded: the completeness argument for C14's rejection classes - every
+//                               text over a 13-letter alphabet up to length 6 (and its upper-case twin) is
+//                               either in the numeric-string grammar or in one of the fourteen classes
+//                               RejText, never both, and NewFromString accepts exactly the former.
 
 import (
 	"bytes"
@@ -524,4 +528,195 @@ func TestVerifBigIntBridge(t *testing.T) {
 		cases += 4
 	}
 	fmt.Printf("BOUNDED name=bigint-bridge bound=pool%dx%dx4reps x4alias cases=%d ok\n", len(pool), len(pool), cases)
+}
+
+// ---- C14: the fourteen rejection classes (hand translation of the Rej* macros of verif_contracts.go) against an
+// independent recogniser of the numeric-string grammar and against the real parser, exhaustively on short texts.
+
+func vrDigit(c byte) bool  { return '0' <= c && c <= '9' }
+func vrLetter(c byte) bool { return ('A' <= c && c <= 'Z') || ('a' <= c && c <= 'z') }
+func vrE(c byte) bool      { return c == 'e' || c == 'E' }
+func vrSign(c byte) bool   { return c == '+' || c == '-' }
+func vrBad(c byte) bool {
+	return c < 128 && !vrDigit(c) && !vrSign(c) && c != '.' && !vrLetter(c)
+}
+func vrAscii(s []byte) bool {
+	for _, c := range s {
+		if c >= 128 {
+			return false
+		}
+	}
+	return true
+}
+func vrOff(s []byte) int {
+	if len(s) > 0 && vrSign(s[0]) {
+		return 1
+	}
+	return 0
+}
+func vrNumStart(s []byte) bool {
+	if len(s) == 0 {
+		return false
+	}
+	if vrSign(s[0]) {
+		return len(s) > 1 && (vrDigit(s[1]) || s[1] == '.')
+	}
+	return vrDigit(s[0]) || s[0] == '.'
+}
+func vrCI(s []byte, p int, w string) bool {
+	if len(s) < p+len(w) {
+		return false
+	}
+	for i := 0; i < len(w); i++ {
+		if s[p+i] != w[i] && s[p+i] != w[i]-32 {
+			return false
+		}
+	}
+	return true
+}
+func vrInf(s []byte, p int) bool {
+	return (len(s) == p+3 && vrCI(s, p, "inf")) || (len(s) == p+8 && vrCI(s, p, "infinity"))
+}
+func vrNoDigit(s []byte) bool {
+	for _, c := range s {
+		if vrDigit(c) {
+			return false
+		}
+	}
+	return true
+}
+
+func vrRej(s []byte, k, k2 int) string {
+	n, off := len(s), vrOff(s)
+	if !vrAscii(s) {
+		return ""
+	}
+	in := func(i int) bool { return 0 <= i && i < n }
+	ns := vrNumStart(s)
+	nan, snan := vrCI(s, off, "nan"), vrCI(s, off, "snan")
+	switch {
+	case n == off:
+		return "empty"
+	case ns && in(k) && vrLetter(s[k]) && !vrE(s[k]):
+		return "letter"
+	case nan && off+3 <= k && k < n && !vrDigit(s[k]):
+		return "nan_tail"
+	case snan && off+4 <= k && k < n && !vrDigit(s[k]):
+		return "snan_tail"
+	case n > off && vrLetter(s[off]) && !vrInf(s, off) && !nan && !snan:
+		return "word"
+	case in(k) && in(k2) && k < k2 && s[k] == '.' && s[k2] == '.':
+		return "two_points"
+	case ns && in(k) && in(k2) && k < k2 && vrE(s[k]) && vrE(s[k2]):
+		return "two_e"
+	case 1 <= k && k < n && vrSign(s[k]) && !vrE(s[k-1]):
+		return "sign_inside"
+	case ns && n >= 2 && vrE(s[n-1]):
+		return "exp_empty"
+	case in(k) && vrBad(s[k]):
+		return "char"
+	case vrNoDigit(s) && !vrInf(s, off) && !(nan && n == off+3) && !(snan && n == off+4):
+		return "no_digit"
+	case off <= k && k < n && vrE(s[k]) && vrNoDigit(s[:k]) && (!vrLetter(s[off]) || k == off):
+		return "no_mant"
+	case ns && n >= 2 && vrSign(s[n-1]):
+		return "end_sign"
+	case ns && in(k) && in(k2) && k < k2 && vrE(s[k]) && s[k2] == '.':
+		return "point_exp"
+	}
+	return ""
+}
+
+// vrGram: the numeric-string grammar of the property statement (optional sign; digits with at most one point; optional
+// e/E exponent with optional sign; inf/infinity; nan/snan with optional digits; case-insensitive).
+func vrGram(s []byte) bool {
+	u := bytes.ToLower(s[vrOff(s):])
+	if string(u) == "inf" || string(u) == "infinity" {
+		return true
+	}
+	for _, p := range []string{"snan", "nan"} {
+		if bytes.HasPrefix(u, []byte(p)) {
+			for _, c := range u[len(p):] {
+				if !vrDigit(c) {
+					return false
+				}
+			}
+			return true
+		}
+	}
+	j, nd, np := 0, 0, 0
+	for j < len(u) && (vrDigit(u[j]) || u[j] == '.') {
+		if u[j] == '.' {
+			np++
+		} else {
+			nd++
+		}
+		j++
+	}
+	if nd == 0 || np > 1 {
+		return false
+	}
+	if j == len(u) {
+		return true
+	}
+	if u[j] != 'e' {
+		return false
+	}
+	j++
+	if j < len(u) && vrSign(u[j]) {
+		j++
+	}
+	k := j
+	for j < len(u) && vrDigit(u[j]) {
+		j++
+	}
+	return j == len(u) && j > k
+}
+
+func TestVerifRejComplete(t *testing.T) {
+	alpha := []byte("+-.e05naifsx_")
+	const maxLen = 6
+	cases, bad := 0, 0
+	classes := map[string]int{}
+	check := func(s []byte) {
+		cases++
+		_, _, err := NewFromString(string(s))
+		acc, g := err == nil, vrGram(s)
+		cls := ""
+		for k := -1; k < len(s) && cls == ""; k++ {
+			for k2 := -1; k2 < len(s) && cls == ""; k2++ {
+				cls = vrRej(s, k, k2)
+			}
+		}
+		if cls != "" {
+			classes[cls]++
+		}
+		if acc != g || (g && cls != "") || (!g && cls == "") {
+			bad++
+			if bad <= 20 {
+				t.Errorf("%q: accepted=%v grammatical=%v rejection class=%q", s, acc, g, cls)
+			}
+		}
+	}
+	buf := make([]byte, 0, maxLen)
+	var rec func()
+	rec = func() {
+		check(buf)
+		if up := bytes.ToUpper(buf); !bytes.Equal(up, buf) {
+			check(up)
+		}
+		if len(buf) == maxLen {
+			return
+		}
+		for _, c := range alpha {
+			buf = append(buf, c)
+			rec()
+			buf = buf[:len(buf)-1]
+		}
+	}
+	rec()
+	if bad > 0 {
+		t.Fatalf("%d of %d texts disagree", bad, cases)
+	}
+	fmt.Printf("BOUNDED name=rejection-classes-complete bound=alphabet13_len0..%d_and_uppercase cases=%d classes_hit=%d ok\n", maxLen, cases, len(classes))
 }
